@@ -321,6 +321,7 @@ def prog():
     x = PrivVal(a)
     y = sc(2 * x)
     z = sc(-y)
+    z = sc(0 * x + z)
     out = z.val()
     backend.prove()
     return out
@@ -348,7 +349,7 @@ def prog():
 
     # per program: sub-circuit function -> (secret arguments, secret results, calls)
     FUNCS = {"square_twice": {"sq": (1, 1, 2)}, "inconsistent_calls": {"chk": (1, 1, 2)},
-             "no_arguments_two_results": {"gen": (0, 2, 2)}, "scaled_and_constant_arguments": {"sc": (1, 1, 2)}, "plain_and_secret_arguments": {"mix": (2, 1, 2)}}
+             "no_arguments_two_results": {"gen": (0, 2, 2)}, "scaled_and_constant_arguments": {"sc": (1, 1, 3)}, "plain_and_secret_arguments": {"mix": (2, 1, 2)}}
 
     def extra(self, c, r, wires, io, eqs, directives):
         p = self.prime
